@@ -46,6 +46,7 @@ fn main() {
         "epoch" => epoch::generate(seed, count),
         "chain-pool" | "chain-farm" | "chain-mixed" => chain::generate(&family, seed, count),
         "findings" => scen::generate_findings(seed, count > 1),
+        "probe-scn" => scen::generate_probes(seed, count),
         "farm-scn" | "manyfarms-scn" | "pool-scn" | "fault-scn" | "auth-scn" => scen::generate(&family, seed, count),
         x => { eprintln!("unknown family {x}"); std::process::exit(2); }
     };
